@@ -269,3 +269,39 @@ def gen_case(rng, shape=None, outcomes=None, p_fail=0.3, error_outputs=True, nit
                     first = s.sub.steps[0]
                     scripts.setdefault(first.src, {})["exec_by_tag"] = per_item
     return {"program": prog, "scripts": scripts, "input": inp, "shape": shape, "outcome": outcome}
+
+
+# ---------------------------------------------------------------- run-time evaluation faults
+def faulting_node(rng, step):
+    """An expression over `step`'s success output that type-checks but cannot be evaluated at run time."""
+    from .model import Call, Bin, Lit
+    tag = Ref(step, "outputs", "success", "tag")
+    k = rng.choice(["stringToInt", "divzero", "stringToInt"])
+    if k == "divzero":
+        return Bin("/", Lit(100), Bin("-", Ref(step, "outputs", "success", "n"), Ref(step, "outputs", "success", "n")))
+    return Call("stringToInt", tag)
+
+
+def add_fault(rng, steps, outs, where=None, optional=None):
+    """Plants one evaluation fault. where: 'output' (a field of a declared output), 'step-needed' (input of a step the
+    output needs), 'step-unneeded' (input of a step nothing needs). Returns a description."""
+    from .model import Opt
+    plugins = [s for s in steps if s.kind == "plugin" and s.schema == "work"]
+    src = rng.choice(plugins)
+    where = where or rng.choice(["output", "output", "step-needed", "step-unneeded"])
+    node = faulting_node(rng, src.name)
+    if where == "output":
+        oid = "success" if "success" in outs and isinstance(outs["success"], dict) else rng.choice(sorted(k for k in outs if isinstance(outs[k], dict)))
+        optional = rng.choice([None, None, "wait", "soft"]) if optional is None else optional
+        if optional == "wait":
+            outs[oid]["fz"] = Opt(node, True)
+        elif optional == "soft":
+            outs[oid]["fz"] = Opt(node, False)
+        else:
+            outs[oid]["fz"] = Expr(node)
+        return "output:%s:%s<-%s" % (oid, optional or "required", src.name)
+    fz = plugin_step("fz", tagref(src.name), extra_input={"n": Expr(node)})
+    steps.append(fz)
+    if where == "step-needed":
+        outs.setdefault("success", {})["fz"] = tagref("fz")
+    return "%s<-%s" % (where, src.name)
